@@ -238,6 +238,8 @@ def _sweep_worker(args):
         n += 1
         if v in ('fail', 'hang'):
             out.append((key, [list(i) for i in items], v, why))
+            if len(out) >= 3:
+                break        # three failing members of the family are enough (each may have cost a time-out)
     return n, out
 
 
